@@ -78,3 +78,18 @@ add("C18", "E1",
     "Every enumerated tree is differentiated with parse_val(text).partial(i) and evaluated at float-valued points away from every branch boundary; the reference evaluates the comparison conditions with the C16 reference interpreter, selects the branch and propagates jets (with rounding bounds) through the selected branch only; comparison conditions keep their value, `if`/`else` are differentiated per operand.",
     "Trusted: harness/src/valref.rs and the jet rules; points near a boundary (1e-3), with non-numeric reference or extreme magnitudes are skipped and counted. Conditions without a variable are outside the property's quantifier and not generated.",
     "DESIGN.md §3 C18")
+add("C10", "E2",
+    "explicit-state exploration (stateright BFS, root set partitioned over single-threaded checkers) of operator-application histories over expression pools, reference tree / exact rational value in lock-step",
+    "(i) operate_unary/operate_binary by name on FlatEx and DeepEx with the symbolic data type: every history up to the depth bound over a pool with overlapping and disjoint variable sets yields the sorted union of the variables and the reference term modulo AC; an unknown name is an error. (ii) + - * / pow, neg on DeepEx and by-name application on FlatEx over exact rationals: the result evaluates, on a rational grid incl. 0 and 1, exactly to the unsimplified reference wherever that is defined and no power has base zero with a non-positive exponent (neutral-element shortcuts).",
+    "Trusted: stateright's visited set (dedup key = structural dump + depth); grid of 5 rational values per variable.",
+    "DESIGN.md §3 C10")
+add("C11", "E2",
+    "explicit-state exploration of substitution histories: every partial map from an expression's variables into a replacement pool, then repeated substitution, on flat and deep expressions, against simultaneous substitution on the reference tree",
+    "For every enumerated base expression and form, every partial map (renaming, swap, constant, self-referential, multi-variable, new-variable replacements, empty map) is applied with Calculate::subs; the result must list the sorted union of untouched and replacement variables and evaluate to the simultaneously substituted reference term (replacements are not re-substituted); a second and third round explores repeated substitution.",
+    "As C01.",
+    "DESIGN.md §3 C11")
+add("C12", "E2",
+    "explicit-state exploration of every expression reachable by parse + up to k transformations (conversion, operator application, substitution, differentiation); in every state unparse -> parse is iterated to its fixpoint and serde_json round-trips the flat form",
+    "A parsed FlatEx must print its source text; the printed text of every reached state must parse back (same form) with the same variables and the same value (symbolically modulo AC for the symbolic data type whose Debug/FromStr round trip is total; numerically for f64 restricted to plain-decimal literals); the unparse -> parse map is iterated to closure; serde_json::to_string / from_str must preserve every flat expression.",
+    "Known finding: derivatives keep variables that no longer occur in the printed text (listed in known_findings.jsonl).",
+    "DESIGN.md §3 C12")
